@@ -12,7 +12,9 @@ use std::io::Write;
 mod probe;
 
 use textwrap::core::{break_words, display_width, Word};
-use textwrap::wrap_algorithms::{wrap_first_fit, wrap_optimal_fit, Penalties};
+use textwrap::wrap_algorithms::wrap_first_fit;
+#[cfg(feature = "full")]
+use textwrap::wrap_algorithms::Penalties;
 use textwrap::{
     dedent, fill, fill_inplace, indent, refill, unfill, wrap, wrap_columns, LineEnding, Options,
     WordSeparator, WordSplitter, WrapAlgorithm,
@@ -28,6 +30,7 @@ fn auto_traits() {
     assert_send_sync::<WrapAlgorithm>();
     assert_send_sync::<LineEnding>();
     assert_send_sync::<Word<'static>>();
+    #[cfg(feature = "full")]
     assert_send_sync::<Penalties>();
 }
 
@@ -77,7 +80,7 @@ fn census() {
 
     marker("@@CENSUS-BEGIN@@\n");
     for &w in &widths {
-        for alg in [WrapAlgorithm::FirstFit, WrapAlgorithm::new_optimal_fit()] {
+        for alg in [WrapAlgorithm::FirstFit, probe::optimal_alg()] {
             for sep in [WordSeparator::AsciiSpace, WordSeparator::new()] {
                 for bw in [false, true] {
                     for splitter in [WordSplitter::NoHyphenation, WordSplitter::HyphenSplitter] {
@@ -124,7 +127,7 @@ fn census() {
             textwrap::word_splitters::split_words(words, &WordSplitter::HyphenSplitter).collect();
         let broken = break_words(split, 5);
         wrap_first_fit(&broken, &[10.0, 20.0]).len() as u64
-            + wrap_optimal_fit(&broken, &[10.0, 20.0], &Penalties::new()).map(|l| l.len()).unwrap_or(0) as u64
+            + probe::optimal_shape(&broken, &[10.0, 20.0]).len() as u64
     }));
     marker("@@CENSUS-END@@\n");
 
